@@ -47,12 +47,24 @@ class Attenuated(Case):
                 e.min_period = mk.integer("min_period")
                 mk.assume(alg.ge(pval(e.min_period), 0))
                 mk.assume(alg.le(pval(e.min_period), 10**9))  # T3: int64 arithmetic read as mathematical
+        e.mode = mk.mode
+        e.param_as = mk.values.get("param_as") if mk.mode != "sym" else None
         return e
+
+    @staticmethod
+    def _param(e, v):
+        """real runs of a grid entry with "param_as": the same number of seconds in the forms a configuration file
+        or a calling program hands over (numpy scalars, 0-d arrays)"""
+        if getattr(e, "mode", None) != "real" or not getattr(e, "param_as", None):
+            return v
+        import numpy as np
+
+        return {"np0d": lambda: np.array(v), "np0d_float": lambda: np.asarray(float(v)), "npint": lambda: np.int64(v), "npfloat32": lambda: np.float32(v), "str": lambda: str(int(v)), "float": lambda: float(v)}[e.param_as]()
 
     def call(self, mod, e):
         kw = {"check_type": self.params["check"]}
         if self.params["window"]:
-            kw["test_period"] = e.period
+            kw["test_period"] = self._param(e, e.period)
             if self.params["minimum"] == "obs":
                 kw["min_obs"] = e.min_obs
             elif self.params["minimum"] == "period":
@@ -244,6 +256,15 @@ class Attenuated(Case):
                                 yield dict(w, min_period=mpd)
                         else:
                             yield w
+        if self.params["window"]:
+            for pa in ("np0d", "np0d_float", "npint", "npfloat32", "float"):  # (a string of digits happens to work too, but is not a documented form)
+                for sus, fail in ((H, H / 2), (3, 1)):
+                    v = {"n": 5, "x": [0, 3, 1, 1, 1], "t": [0, 60, 120, 180, 240], "sus": sus, "fail": fail, "period": 120, "param_as": pa, "keep": 1}
+                    if self.params["minimum"] == "obs":
+                        v["min_obs"] = 2
+                    elif self.params["minimum"] == "period":
+                        v["min_period"] = 60
+                    yield v
 
 
 class AttenuatedSubsecond(Case):
